@@ -975,6 +975,68 @@ def c12(ctx):
     ctx.count("multi_change_api_vs_cli", len(multi))
     api_vs_cli(ctx, multi, "C12 (several changes in one patch)")
 
+def c12_descriptions(ctx):
+    """descriptions only for files to which a described change applied: the description of every change comes from the
+    Lean sectioning model, which changes apply to the file from the Lean engine model; the binary's stderr is the observation"""
+    rng = random.Random(ctx.seed + 21)
+    singles = [c for c in gen_cases(ctx, "mix", 160 if ctx.tier == "quick" else 2500, ctx.seed + 21, golden=False)
+               if len(c.get("patches", [])) == 1 and c["patches"][0].count("\n@@\n") == 1]
+    def body_of(ptxt):
+        desc, header, meta, body = split_patch_text(ptxt)
+        return "\n".join([header] + meta + ["@@"] + body) + "\n"
+    cases = []
+    n = 30 if ctx.tier == "quick" else 600
+    for k in range(min(n, len(singles) // 2)):
+        a, b = rng.sample(singles, 2)
+        da, db = rng.random() < 0.7, rng.random() < 0.4
+        text = ("# about the first change\n" if da else "") + body_of(a["patches"][0]) + "\n" + \
+               ("# about the second change\n#   second line of it\n" if db else "") + body_of(b["patches"][0])
+        for which, src in (("a", a["src"]), ("b", b["src"])):
+            cases.append({"id": f"desc{k}{which}", "patches": [text], "src": src})
+    if not cases:
+        return
+    d = ctx.scratch("c12d")
+    pth = os.path.join(d, "in.jsonl")
+    with open(pth, "w") as f:
+        for c in cases:
+            f.write(json.dumps(c) + "\n")
+    traces = {inp["id"]: (model["trace"], impl["trace"]) for inp, orig, impl, model, same in run_engine_batch(ctx, ["-inputs", pth], "c12d")}
+    comments = {}
+    for c, impl, model in run_front(ctx, [{"id": c["id"], "patch": c["patches"][0]} for c in cases]):
+        msx = parse_sx(model)
+        mchs = sx_field(msx[2:], "changes") or []
+        comments[c["id"]] = [[cl.sx_unquote(x) for x in (sx_field(ch[1:], "comments") or [])] for ch in mchs]
+    def one(c):
+        root = ctx.scratch("c12dr")
+        cl.write_tree(root, {"a.go": c["src"], "p.patch": c["patches"][0]})
+        res = []
+        for flag in ("--print-only", "--diff"):
+            code, out, err = cl.gopatch(ctx.gopatch, root, ["-p", "p.patch", flag, "a.go"])
+            res.append((flag, code, err.decode("utf-8", "replace")))
+        shutil.rmtree(root, ignore_errors=True)
+        return res
+    with ThreadPoolExecutor(max_workers=16) as ex:
+        obs = list(ex.map(one, cases))
+    for c, res in zip(cases, obs):
+        tr = traces.get(c["id"])
+        cm = comments.get(c["id"])
+        if tr is None or cm is None or tr[0] != tr[1] or len(cm) != len(tr[0]):
+            ctx.count("descriptions:not-expressible")
+            continue
+        allowed = [t for k, ch in enumerate(cm) if tr[0][k].startswith("k") for t in ch]
+        for flag, code, err in res:
+            ctx.evaluations += 1
+            ctx.count("descriptions:" + ("some-change-applies" if any(t.startswith("k") for t in tr[0]) else "none-applies"))
+            if code != 0:
+                continue
+            got = [l[len("a.go:"):] for l in err.split("\n") if l.startswith("a.go:")]
+            extra = [g for g in got if g not in allowed]
+            if any(t.startswith("k") for t in tr[0]):
+                ctx.nontrivial.add("desc:" + c["id"])
+            if extra:
+                ctx.violation(f"{flag}: stderr carries the description line(s) {extra} for a.go, but the change(s) that apply to it "
+                              f"(specification: {tr[0]}) have the descriptions {allowed}", {"input": {"patches": c["patches"], "src": c["src"], "flags": [flag]}, "stderr": err[-500:]})
+
 def c12_body(ctx, post):
     cli_family(ctx, {"odd", "generated"},
                [[], ["print"], ["diff"], ["diff", "v"], ["print", "si"], ["diff", "sg"], ["si"], ["print", "sg", "si"], ["v"],
@@ -982,6 +1044,8 @@ def c12_body(ctx, post):
                {"write", "stdout", "desc", "diffapply"}, 25, 500, post=post)
     # the output modes must agree however the files are named (relative, absolute, overlapping, repeated)
     arg_forms_family(ctx, "output modes disagree")
+    # descriptions: only for files to which a described change applied
+    c12_descriptions(ctx)
     # F17: a patched file with CRLF line endings
     sc = Scenario("f17", ["@@\n@@\n-zzz(1)\n+yyy(1)\n"], {"crlf.go": "package odd\r\n\r\nfunc crlf() {\r\n\tzzz(1)\r\n}\r\n"}, "crlf-matched")
     run_scenarios(ctx, [sc], [["diff"], ["print"], []], {"write", "stdout", "desc", "diffapply"}, None)
